@@ -23,3 +23,22 @@ func verifPoint(name string) {
 		(*h)(name)
 	}
 }
+
+// verifCaptureHandler, when installed, receives intermediate values of a
+// computation (name, the object the computation belongs to, the value).
+var verifCaptureHandler atomic.Pointer[func(name string, owner any, value any)]
+
+// VerifSetCaptureHandler installs (or, with nil, removes) the capture handler.
+func VerifSetCaptureHandler(h func(name string, owner any, value any)) {
+	if h == nil {
+		verifCaptureHandler.Store(nil)
+		return
+	}
+	verifCaptureHandler.Store(&h)
+}
+
+func verifCapture(name string, owner any, value any) {
+	if h := verifCaptureHandler.Load(); h != nil {
+		(*h)(name, owner, value)
+	}
+}
